@@ -309,3 +309,17 @@ func (l *Listener) DialPair() (client, server *Conn, err error) {
 		return nil, nil, opErr("dial", ErrRefused)
 	}
 }
+
+// DialPairPlanned is DialPair that tells the caller the client address (what the server will
+// see as the remote address) before the server end is handed to Accept.
+func (l *Listener) DialPairPlanned(plan func(clientAddr string)) (client, server *Conn, err error) {
+	a, b := Pipe(l.Cap)
+	plan(a.LocalAddr().String())
+	select {
+	case l.ch <- b:
+		l.Dialed.Add(1)
+		return a, b, nil
+	case <-l.done:
+		return nil, nil, opErr("dial", ErrRefused)
+	}
+}
